@@ -36,7 +36,7 @@ impl Drop for Tag {
     }
 }
 
-fn take_drops() -> Vec<u32> {
+pub fn take_drops() -> Vec<u32> {
     DROPS.with(|d| std::mem::take(&mut *d.borrow_mut()))
 }
 
